@@ -37,3 +37,19 @@ func Stop() (Vector, []StrEvent, bool) {
 	}
 	return v, ev, overflow
 }
+
+
+// CountersLen is the number of basic-block execution counters of the instrumented packages (0 if the runtime did not
+// announce a counter section).
+func CountersLen() int { return int(C.verif_cnt_len()) }
+
+// ZeroCounters clears all block counters.
+func ZeroCounters() { C.verif_cnt_zero() }
+
+// SnapshotCounters copies the block counters into dst (len(dst) >= CountersLen()).
+func SnapshotCounters(dst []byte) {
+	if len(dst) == 0 || len(dst) < CountersLen() {
+		return
+	}
+	C.verif_cnt_copy((*C.uint8_t)(&dst[0]))
+}
